@@ -174,10 +174,10 @@ fn parse_expression_identifier(input: ParserInput) -> InternalParserResult<Expre
             "pi" => Ok((remainder, Expression::PiConstant())),
             "sin" => parse_function_call(remainder, ExpressionFunction::Sine),
             "sqrt" => parse_function_call(remainder, ExpressionFunction::SquareRoot),
-            name => Ok((
+            _ => Ok((
                 remainder,
                 Expression::Address(MemoryReference {
-                    name: name.to_owned(),
+                    name: ident.clone(),
                     index: 0,
                 }),
             )),
